@@ -13,7 +13,8 @@ RULE = ("request lines through the real _RequestHandler.handle + HSM2ProtocolLed
         "arrays, 5000-digit integers, NaN, duplicate keys, wrong-typed command, out-of-range integers, "
         "brothers that are hex but not RLP / RLP strings / nested lists, >255 brothers, >64 KiB witness "
         "scripts, oversized proofs and blocks) with conforming and status-word-injecting device policies; "
-        "non-trivial = the line decodes to a JSON object naming one of the ten commands and the device "
+        "plus whole manager lifetimes (2..8 mixed lines on one manager and one device, link / status faults anywhere "
+        "in the exchange sequence, repairs) against the model's `serve`; non-trivial = the line decodes to a JSON object naming one of the ten commands and the device "
         "conformed; distinct by hash of the canonical case")
 ASSUMPTIONS = ["the set of Python exception sources is validated by this differential run, not derived from "
                "CPython's semantics", "CPython's JSON grammar is not re-modelled: the decode outcome class "
@@ -28,7 +29,41 @@ def worker_init():
 
 def run_impl(op, inp):
     from .. import mgr
+    if op == "history":
+        return mgr.run_history(inp)
     return mgr.run_line(inp)
+
+
+def history_case(rng, n):
+    """one manager lifetime: n lines (valid, mutated, hostile, raw) on one manager and one device, with link /
+    status faults sprinkled over the whole exchange sequence and a PIN for the repairs"""
+    lines, fulls = [], {}
+    hostile = list(hostile_requests(rng))
+    for _ in range(n):
+        k = rng.random()
+        if k < 0.55:
+            req, f = reqgen.valid_request(rng)
+            fulls.update(f)
+            lines.append({"kind": "json", "request": req})
+        elif k < 0.75:
+            req, f = reqgen.valid_request(rng)
+            fulls.update(f)
+            muts = list(reqgen.mutations(req, rng, per_path=1))
+            lines.append({"kind": "json", "request": rng.choice(muts)[2]})
+        elif k < 0.9:
+            lines.append({"kind": "json", "request": rng.choice(hostile)})
+        else:
+            lines.append({"kind": "raw", "hex": (rng.choice(RAW) if rng.random() < 0.5
+                                                 else g.rand_bytes(rng, rng.randrange(0, 40)) + b"\n").hex()})
+    pol = conforming_policy(rng)
+    faults = dict(pol.get("faults", {}))
+    for _ in range(rng.randrange(0, 4)):
+        faults[str(rng.randrange(0, 40))] = list(rng.choice(linegen.FAULTS))
+    pol["faults"] = faults
+    inp = {"mode": rng.choice(["v5", "v5", "v5", "v1"]), "lines": lines, "dev": linegen.dev_spec(rng, **pol),
+           "full_coinbases": fulls, "conns": rng.choice([[], [], [True, False, True], [False]]),
+           "pin": {"pin": b"1234567a".hex(), "needs_change": False}}
+    return Case("history", inp, stream="history", command="history", nlines=n)
 
 
 def raw_case(rng, raw, stream="hostile-raw"):
@@ -158,11 +193,21 @@ def gen(tier, rng):
         out.append(c)
     for c in out:
         c.op = OP
+    # whole manager lifetimes (the model's `serve`): several requests on one manager and one device
+    for i in range(120 if tier == "quick" else 3000):
+        out.append(history_case(rng, rng.choice([2, 3, 5, 8])))
     return out
 
 
 def tags(c, o):
     t = [c.meta.get("stream", "?")]
+    if c.op == "history":
+        if isinstance(o, dict):
+            t.append("lines:%d" % len(o.get("lines", [])))
+            t.append("repairs:%d" % sum(1 for e in o.get("events", []) if e == "D"))
+            if any(l.get("shutdown") for l in o.get("lines", [])):
+                t.append("shutdown")
+        return t
     if isinstance(o, dict):
         rep = o.get("reply")
         code = rep.get("errorcode") if isinstance(rep, dict) else None
@@ -176,6 +221,8 @@ def tags(c, o):
 
 
 def nontrivial(c, o):
+    if c.op == "history":
+        return isinstance(o, dict) and len(o.get("lines", [])) >= 2
     line = c.input["line"]
     if line["kind"] != "json":
         return False
